@@ -224,6 +224,7 @@ func c12(c *orch.Ctx) (*report.Result, error) {
 				add(rr, reqPlan{Class: class}, "valid-"+class, "", "")
 			}
 			add(rr, reqPlan{Class: "typical", OmitOptional: true}, "valid-optionals-omitted", "", "")
+			add(rr, reqPlan{Class: "typical", Decoys: true}, "same-named-decoys-elsewhere", "", "")
 			for _, b := range []string{"err", "status", "header", "errstatus"} {
 				add(rr, reqPlan{Class: "typical"}, "operation-"+b, b, "")
 			}
@@ -237,6 +238,7 @@ func c12(c *orch.Ctx) (*report.Result, error) {
 					continue
 				}
 				add(rr, reqPlan{Class: "typical", Omit: pr.GoName}, "omitted-"+pr.In, "", "")
+				add(rr, reqPlan{Class: "typical", Omit: pr.GoName, Decoys: true}, "omitted-"+pr.In+"-with-decoys", "", "")
 				add(rr, reqPlan{Class: "typical", IllTyped: pr.GoName}, "unconvertible-"+pr.In, "", "")
 				if pr.Validate != "" {
 					add(rr, reqPlan{Class: "typical", Violate: pr.GoName}, "validator-violated-"+pr.In, "", "")
